@@ -301,15 +301,18 @@ def shape_ok(pat):
 class Eng:
     """an engine together with what is needed to read its tokens and trees"""
 
-    def __init__(self, kind, calls=()):
-        import yaql
-        from yaql import legacy
-        from yaql.language import exceptions
+    def __init__(self, kind, calls=(), creates=()):
+        """`creates`: positions i (before call i) at which an EXTRA engine is created on the same factory
+        object; each is kept in self.views together with the table the factory had at that moment"""
         self.kind, self.calls = kind, [tuple(c) for c in calls]
+        self.creates = sorted(set(int(i) for i in creates if 0 <= int(i) < len(self.calls)))
+        self.views, self.view_index = [], None
         self.factory = make_factory(kind)
         self.delegates = kind_parts(kind)[1]
         self.history = []          # (ops before, call, ops after | None)
-        for c in self.calls:
+        for i, c in enumerate(self.calls):
+            if i in self.creates:
+                self.views.append(EngView(self, i, len(self.views)))
             before = canon_ops(self.factory.operators)
             try:
                 self.factory.insert_operator(*c)
@@ -317,6 +320,11 @@ class Eng:
             except ValueError:
                 after = None
             self.history.append((before, c, after))
+        self._create_now(self.calls)
+
+    def _create_now(self, calls_so_far):
+        """factory.create() NOW; remember the table the factory holds at this moment"""
+        from yaql.language import exceptions
         self.ops = canon_ops(self.factory.operators)
         try:
             self.built = self.factory._build_operator_table(self.factory._name_generator())
@@ -331,12 +339,15 @@ class Eng:
             self.name2sym = {v[2]: k for k, v in self.built.operators.items()}
         # the table the engine must follow: the pinned base table with the call sequence applied by the
         # CONTRACT of insert_operator (spec_insert), not factory.operators read back
-        self.spec_ops = spec_base(kind)
-        for c in self.calls:
+        self.spec_ops = spec_base(self.kind)
+        for c in calls_so_far:
             self.spec_ops = spec_insert(self.spec_ops, c)
 
     def spec(self):
-        return {"kind": self.kind, "calls": self.calls}
+        d = {"kind": self.kind, "calls": self.calls}
+        if self.creates:
+            d["creates"] = self.creates
+        return d
 
     def lex(self, text):
         """model tokens (python form) or None if the lexer rejects the text"""
@@ -372,7 +383,7 @@ class Eng:
             return ("atom", ("ctx", t.value))
         if ty in ("QUOTED_STRING", "NUMBER", "TRUE", "FALSE", "NULL"):
             return ("atom", ("const", type(t.value).__name__, t.value))
-        return ("op", self.name2sym[ty])
+        return ("op", self.name2sym.get(ty, t.value))
 
     def tree(self, text):
         """('ok', tree) | ('err',)  -- tree in python form; raises on anything else"""
@@ -429,6 +440,25 @@ class Eng:
             else:
                 out.append(("V", self.conv(a)))
         return tuple(out)
+
+
+class EngView(Eng):
+    """an engine created part-way through a history on ONE factory object: it must follow the table the
+    factory had when it was created, whatever is inserted or created on the factory afterwards"""
+
+    def __init__(self, parent, pos, index):
+        self.parent, self.kind, self.delegates, self.factory = parent, parent.kind, parent.delegates, parent.factory
+        self.calls, self.history, self.views, self.creates = parent.calls[:pos], [], [], []
+        self.view_index, self.mixed = index, False
+        self._create_now(self.calls)
+
+    def spec(self):
+        return dict(self.parent.spec(), view=self.view_index)
+
+
+def eng_from_spec(d):
+    e = Eng(d["kind"], [tuple(c) for c in d["calls"]], d.get("creates", ()))
+    return e.views[d["view"]] if d.get("view") is not None else e
 
 
 class NameMismatch(Exception):
@@ -530,20 +560,70 @@ WORD = set("abcdefghijklmnopqrstuvwxyzABCDEFGHIJKLMNOPQRSTUVWXYZ0123456789_$")
 ATOMS = ["a", "b", "c", "d", "x1", "$", "$v", "1", "2", "30", "4.5", "'s'", '"t"', "`u`", "true", "false", "null", "k_"]
 
 
+class Text(str):
+    """a generated text that remembers the pieces (intended tokens) it was joined from"""
+    parts = None
+
+
+def isw(c):
+    return c.isalnum() or c in "_$"
+
+
 def join(rng, parts, wild=True):
     """concatenate text pieces with random whitespace; pieces that would fuse get at least one blank"""
     out = ""
     for p in parts:
         if out:
             a, b = out[-1], p[0]
-            need = (a in WORD and b in WORD) or (a not in WORD and b not in WORD and a not in "()[]{}," and b not in "()[]{},") \
-                or (a in WORD and b == "(") or (a in "0123456789" and b == ".") or (a == "." and b in "0123456789")
+            need = (isw(a) and isw(b)) or (not isw(a) and not isw(b) and a not in "()[]{}," and b not in "()[]{},") \
+                or (isw(a) and b == "(") or (a in "0123456789" and b == ".") or (a == "." and b in "0123456789")
             ws = rng.choice(["", "", " ", " ", "  ", "\t", "\n", " \n "]) if wild else ""
             if need and not ws:
                 ws = " "
             out += ws
         out += p
+    out = Text(out)
+    out.parts = list(parts)
     return out
+
+
+def intended_kinds(eng, parts):
+    """what each piece of a generated text is under the engine's table: every symbol of the table is an
+    operator token, whatever characters it is made of"""
+    syms = set(eng.built.operators) - {"[]", "{}"}
+    kw = eng.built.name_value_op
+    out = []
+    for p in parts:
+        if p in ("(", ")", "[", "]", "{", "}", ","):
+            out.append(p)
+        elif kw is not None and p == kw:
+            out.append("=>")
+        elif p in syms:
+            out.append(("op", p))
+        elif p.endswith("(") and len(p) > 1:
+            out.append(("func", p[:-1]))
+        else:
+            out.append("atom")
+    return out
+
+
+def lexed_kinds(toks):
+    return [t if isinstance(t, str) else ("atom" if t[0] == "atom" else (t[0], t[1])) for t in toks]
+
+
+def lexer_violation(eng, text, toks):
+    """None, or (what, data): the lexer does not turn the operators of the table into operator tokens"""
+    parts = getattr(text, "parts", None)
+    if parts is None or toks is None:
+        return None
+    want, got = intended_kinds(eng, parts), lexed_kinds(toks)
+    if want == got:
+        return None
+    bad = [p for p, w in zip(parts, want) if isinstance(w, tuple) and w[0] == "op" and w not in got]
+    return ("the lexer does not produce the operator tokens of the engine's table, so the expression cannot get the "
+            "tree the table dictates", {"engine": eng.spec(), "text": str(text), "pieces": list(parts),
+                                        "operators_not_lexed": sorted(set(bad)), "observed": [repr(t) for t in got],
+                                        "required": [repr(t) for t in want]})
 
 
 class TableView:
@@ -702,7 +782,9 @@ def gen_random(eng, rng, n):
 
 
 POOL_PUNCT = ["!", "~", "@", "%", "^", "&", "|", "**", "//", "<>", "??", "::", ":", ";", "#", "<<", ">>", "|>", "~>", "&&", "||"]
-POOL_WORD = ["xor", "div", "is", "then", "implies", "nand", "isa", "u_op"]
+# word-shaped symbols over the whole \\w alphabet: letters, digits, underscore, mixed case, non-ASCII letters
+POOL_WORD = ["xor", "div", "is", "then", "implies", "nand", "isa", "u_op", "not_in", "is_a", "div2", "neg_", "x9_",
+             "isNull", "Xor", "AND2", "_u", "\u00fcnd", "\u0438\u043b\u0438", "\u00e9t\u00e9_1", "\u03b1\u03b2"]
 
 
 def gen_calls(rng, base_ops, ncalls, mixed):
@@ -802,9 +884,19 @@ def nontrivial(toks):
     return any(v >= 2 for v in counts.values())
 
 
+_lexer_reported = set()
+
+
 def check_text(run, eng, text, cases, meta, where):
     """run the real lexer and parser on one text; queue the Coq case; returns the python observation"""
     toks = eng.lex(text)
+    lv = lexer_violation(eng, text, toks)
+    if lv:
+        run.count("lexer misses an operator of the table")
+        key = ("lexer", tuple(lv[1]["operators_not_lexed"]), repr(eng.spec()))
+        if key not in _lexer_reported and len(_lexer_reported) < 8:
+            _lexer_reported.add(key)
+            run.fail("violation", lv[0], lv[1])
     if toks is None:
         run.cov["skipped"] += 1
         run.count("lexer rejects (not this property)")
@@ -989,23 +1081,44 @@ FIXED = [
     ("legacy", [("or", True, "not", L, False, "bin_not"), ("not", True, "@", L, True, None), ("not", False, "!", P, False, None)]),
     # arities the anchor symbol does not have: both calls must raise ValueError
     ("default", [("and", False, "@", L, True, None), ("not", True, "@", L, False, None), ("or", True, "@", L, True, None)]),
+    # word-shaped operators with underscore / digit / upper case / non-ASCII letters in all four roles
+    ("default", [("in", True, "not_in", L, False, None), ("not", False, "neg_", P, False, None),
+                 ("-", False, "is_set9", S, True, None), ("->", True, "then_2", R, False, "then"),
+                 ("and", True, "\u00fcnd", L, False, None), ("or", True, "\u0438\u043b\u0438", L, False, None)]),
+    ("legacy", [("mod", True, "Div2", L, False, None), ("not", False, "isNull", P, True, None), ("=>", True, "x_9", R, True, None)]),
     # a table _build_operator_table must reject: second binary role for `+`
     ("default", [("or", True, "+", R, False, None)]),
 ]
 
 
+# histories on ONE factory object: create() at the given positions (before call i), then the remaining calls,
+# then the final create(); every engine must follow the table the factory held when it was created
+FIXED_HISTORIES = [
+    ("default", [("-", True, "--", L, False, None)], [0]),
+    ("legacy", [("or", True, "xor", L, False, None), ("not", False, "!", P, False, None)], [0, 1]),
+    ("default+delegates", [("->", True, "!", P, False, None), ("*", True, "**", R, True, None),
+                           ("-", False, "is_set9", S, True, None)], [1, 2]),
+]
+
+
 def engines_for(run, n_random):
-    engs = [Eng(k) for k in BASE_KINDS] + [Eng(k, c) for k, c in FIXED]
+    engs = [Eng(k) for k in BASE_KINDS] + [Eng(k, c) for k, c in FIXED] + [Eng(k, c, cr) for k, c, cr in FIXED_HISTORIES]
     for e in engs:
         e.mixed = False
     for i in range(n_random):
         base = run.rng.choice(["default"] * 5 + ["legacy", "legacy", "default+delegates", "legacy+delegates", "nokw", "kw:="])
         mixed = run.rng.random() < 0.2
         calls = gen_calls(run.rng, spec_base(base), run.rng.randrange(1, 7), mixed)
-        e = Eng(base, calls)
+        creates = [i for i in range(len(calls)) if run.rng.random() < 0.5] if run.rng.random() < 0.3 else []
+        e = Eng(base, calls, creates)
         e.mixed = mixed
         engs.append(e)
     return engs
+
+
+def with_views(engs):
+    """the engines followed by every earlier engine of their factory histories (checked AFTER the whole history ran)"""
+    return list(engs) + [v for e in engs for v in e.views]
 
 
 def load_corpus():
@@ -1020,7 +1133,8 @@ def texts_for(run, eng, idx):
     rng = run.rng
     for t in gen_focus(eng, rng):
         yield "focus", t
-    if idx < 2:                                     # default, legacy
+    view = eng.view_index is not None
+    if idx < 2 and not view:                        # default, legacy
         for t in gen_pairs(eng, rng, 2, 1):
             yield "pairs", t
         for t in gen_pairs(eng, rng, 2, 2, sample=run.n(1500, 0)):
@@ -1034,16 +1148,17 @@ def texts_for(run, eng, idx):
                 yield "triples+2prefix (sample)", t
         for t in gen_random(eng, rng, run.n(500, 10000)):
             yield "random", t
-    elif not eng.calls:                             # the other factory kinds (delegates, keyword operator variants)
+    elif not eng.calls and not view:                # the other factory kinds (delegates, keyword operator variants)
         for t in gen_pairs(eng, rng, 2, 1, sample=run.n(500, 7000)):
             yield "%s pairs" % eng.kind, t
         for t in gen_random(eng, rng, run.n(400, 8000)):
             yield "%s random" % eng.kind, t
     else:
+        tag = "earlier engine of a factory history" if view else "custom"
         for t in gen_pairs(eng, rng, 2, 1, sample=run.n(60, 600)):
-            yield "custom pairs", t
+            yield tag + " pairs", t
         for t in gen_random(eng, rng, run.n(60, 1400)):
-            yield "custom random", t
+            yield tag + " random", t
 
 
 _engs = None
@@ -1059,13 +1174,18 @@ def correspondence(run):
                      {"engine": e.spec(), "error": e.create_error, "ops": e.ops})
     check_tables(run, engs)
     for c in load_corpus():
-        e = Eng(c["engine"]["kind"], c["engine"]["calls"])
+        e = eng_from_spec(c["engine"])
         if e.engine is None:
             continue
         cases, meta = [], []
         check_text(run, e, c["text"], cases, meta, "corpus")
         flush(run, e, cases, meta)
-    for idx, e in enumerate(engs):
+    for e in engs:
+        for v in e.views:
+            if v.create_error:
+                run.fail("violation", "factory.create() fails although _build_operator_table accepts the operator list",
+                         {"engine": v.spec(), "error": v.create_error, "ops": v.ops})
+    for idx, e in enumerate(with_views(engs)):
         if e.engine is None:
             continue
         cases, meta = [], []
@@ -1076,6 +1196,9 @@ def correspondence(run):
         flush(run, e, cases, meta)
     run.note("engines: %s; %d built by insert_operator sequences (%d of them with mixed groups)"
              % (", ".join(BASE_KINDS), len(engs) - len(BASE_KINDS), sum(1 for e in engs if getattr(e, "mixed", False))))
+    run.note("%d engines were created part-way through a history on one factory object (create / insert_operator / "
+             "create ...) and checked against the table of their creation time after the whole history had run"
+             % sum(len(e.views) for e in engs))
     run.note("of these %d are fixed tables (prefix operator inside the right-associative group, tighter "
              "right-associative group, suffix groups, aliases, prefix+binary symbol)" % len(FIXED))
 
@@ -1088,15 +1211,15 @@ def oracle(run, deep):
             run.note("the %s factory's operator list differs from the pinned table; searching for a text that shows it" % e.kind)
             deep = True
     seen_fail = set()
-    for idx, e in enumerate(engs):
+    for idx, e in enumerate(with_views(engs)):
         if e.engine is None:
             continue
         rng = run.rng
-        if idx < 2:
+        if idx < 2 and e.view_index is None:
             texts = list(gen_pairs(e, rng, 2, 1)) if deep else list(gen_pairs(e, rng, 2, 1, sample=run.n(1200, 4000)))
             texts += list(gen_pairs(e, rng, 3, 1, sample=run.n(300, 20000) * (3 if deep else 1)))
             texts += list(gen_random(e, rng, run.n(400, 6000) * (3 if deep else 1)))
-        elif not e.calls:
+        elif not e.calls and e.view_index is None:
             texts = list(gen_focus(e, rng)) + list(gen_pairs(e, rng, 2, 1, sample=run.n(300, 3000))) + list(gen_random(e, rng, run.n(300, 4000)))
         else:
             texts = list(gen_focus(e, rng)) + list(gen_pairs(e, rng, 2, 1, sample=run.n(40, 300))) + list(gen_random(e, rng, run.n(40, 400)))
@@ -1142,8 +1265,15 @@ def shrink_text(eng, data):
 def replay(run, data):
     d = data["data"]
     if "error" in d:
-        e = Eng(d["engine"]["kind"], [tuple(c) for c in d["engine"]["calls"]])
+        e = eng_from_spec(d["engine"])
         return e.create_error is None and precedence_covers(e)
+    if "pieces" in d:
+        e = eng_from_spec(d["engine"])
+        if e.engine is None:
+            return False
+        t = Text(d["text"])
+        t.parts = d["pieces"]
+        return lexer_violation(e, t, e.lex(t)) is None
     if "call" in d and "text" not in d:
         e = Eng(d["engine"]["kind"], [])
         before = [tuple(t) for t in d["before"]]
@@ -1159,7 +1289,7 @@ def replay(run, data):
         return not run.coq_mismatches(HEADER, "ins_case", "ins_case_ok", [ins_case_term(before, c, after)])
     if "text" not in d:
         return False
-    e = Eng(d["engine"]["kind"], [tuple(c) for c in d["engine"]["calls"]])
+    e = eng_from_spec(d["engine"])
     if e.engine is None:
         return False
     toks = e.lex(d["text"])
